@@ -643,6 +643,74 @@ def absent_deep(rep, fnd, pid, tier):
     rep.count("absent_deep_cases", n)
 
 
+def reuse_walk_dt(rep, pid, tier, what="forward"):
+    """ONE DTCWTForward / DTCWTInverse object per filter pair along a WALK of (batch, channels, size) - neighbouring odd / even
+    sizes, sizes that are 0 / 2 mod 4, more and then fewer channels, a repeat -, every result against dtcwt.Transform2d.
+    Whatever a module remembers between calls (a filter bank built for the widest input so far, an extension plan, a buffer) is
+    consulted here with a key that collides; the layers that build a fresh module per case never consult it."""
+    from dtcwt.numpy import Transform2d, Pyramid
+    import logging
+    dwtlib.f64()
+    rng = np.random.default_rng(33900 + seed())
+    walk = [(2, 3, 12, 16), (2, 2, 12, 16), (1, 1, 11, 16), (1, 4, 12, 16), (3, 1, 10, 14), (1, 2, 10, 13), (1, 2, 9, 13), (1, 2, 16, 8), (2, 3, 12, 16), (1, 1, 22, 6)]
+    pairs = [("near_sym_a", "qshift_a", 3), ("near_sym_b", "qshift_c", 2)] if tier == "quick" else \
+        [(b, QSHIFTS[(k + 1) % 5], 2 + k % 2) for k, b in enumerate(BIORTS)] + [("near_sym_a", "qshift_06", 3)]
+    n = 0
+    logging.disable(logging.WARNING)
+    try:
+        for (b, q, J) in pairs:
+            fw, iv = pw.DTCWTForward(biort=b, qshift=q, J=J), pw.DTCWTInverse(biort=b, qshift=q)
+            tr = Transform2d(biort=b, qshift=q)
+            hist = []
+            for shp in walk:
+                hist.append(list(shp))
+                x = rng.standard_normal(shp)
+                cfg = dict(biort=b, qshift=q, J=J, shapes_so_far=[list(h) for h in hist])
+                case = {"api": "DTCWTForward" if what == "forward" else "DTCWTInverse", "check": "reuse_walk", "cfg": cfg}
+                rep.validated()
+                rep.nontriv(("reuse_walk_dt", what, b, q, J, tuple(shp), len(hist)))
+                n += 1
+                try:
+                    err = 0.0
+                    if what == "forward":
+                        yl, yh = fw(torch.tensor(x))
+                        for i in range(shp[0]):
+                            for c in range(shp[1]):
+                                p = tr.forward(x[i, c], nlevels=J)
+                                err = max(err, np.abs(yl[i, c].numpy() - p.lowpass).max() if tuple(yl.shape[-2:]) == p.lowpass.shape else np.inf)
+                                for j in range(J):
+                                    a, hp = yh[j][i, c].numpy(), p.highpasses[j]
+                                    if a.shape != (6,) + hp.shape[:2] + (2,):
+                                        err = np.inf
+                                        break
+                                    err = max(err, np.abs(a[..., 0] - np.moveaxis(hp.real, 2, 0)).max(), np.abs(a[..., 1] - np.moveaxis(hp.imag, 2, 0)).max())
+                        tol = 1e-12 * np.abs(x).max() * 4.0 ** J
+                    else:
+                        with torch.no_grad():
+                            yl, yh = pw.DTCWTForward(biort=b, qshift=q, J=J)(torch.tensor(x))
+                        g = torch.Generator().manual_seed(n)
+                        yl = torch.randn(yl.shape, generator=g, dtype=torch.float64)
+                        yh = [torch.randn(h.shape, generator=g, dtype=torch.float64) for h in yh]
+                        y = iv((yl, yh)).numpy()
+                        for i in range(shp[0]):
+                            for c in range(shp[1]):
+                                hps = tuple(np.moveaxis(h[i, c, ..., 0].numpy() + 1j * h[i, c, ..., 1].numpy(), 0, 2) for h in yh)
+                                r = tr.inverse(Pyramid(yl[i, c].numpy(), hps))
+                                err = max(err, np.abs(y[i, c] - r).max() if y[i, c].shape == r.shape else np.inf)
+                        tol = 1e-12 * 6.0 * 4.0 ** J
+                except Exception as e:   # noqa
+                    rep.violation("%s(%s, %s, J=%d), ONE module called with shapes %s: raised %r at the last one" % (case["api"], b, q, J, hist, e),
+                                  dict(case, observed=repr(e)))
+                    break
+                if not err <= tol:
+                    rep.violation("%s(%s, %s, J=%d), ONE module called with shapes %s: the result for the last shape differs from the reference "
+                                  "dtcwt.Transform2d by %.3g (bound %.3g)" % (case["api"], b, q, J, hist, err, tol), dict(case, err=float(err)))
+                    break
+    finally:
+        logging.disable(logging.NOTSET)
+    rep.count("reuse_walk_dt_comparisons", n)
+
+
 # ------------------------------------------------------------------------------------------
 # options (C12)
 # ------------------------------------------------------------------------------------------
